@@ -55,7 +55,7 @@ def cases(tier, seed):
         st = [[t] for t in SINGLE] + rng.sample(pairs, 12) + rng.sample(triples, 8) + rng.sample(quads, 4)
     else:
         st = [[t] for t in SINGLE] + pairs + rng.sample(triples, 100) + rng.sample(quads, 60)
-    for extra in (["throttle", "map"], ["throttle", "retry"], ["throttle", "cos", "poll"]):
+    for extra in (["throttle", "map"], ["throttle", "retry"], ["throttle", "cos", "poll"], ["throttle", "retry", "cos"]):
         if extra not in st:
             st.append(extra)
     for layers in st:
@@ -69,6 +69,8 @@ def cases(tier, seed):
             if pair == "worker|shutdown" and not (set(layers) & {"retry", "poll", "throttle", "timeout"}):
                 continue
             out.append({"name": "shutdown.race/%s/%s" % (">".join(layers), pair), "kind": "race", "layers": layers, "pair": pair, "cap": cap})
+    for t in ("retry", "poll", "throttle", "timeout"):
+        out.append({"name": "shutdown.from-callback/%s" % t, "kind": "fromcb", "layer": t})
     out.append({"name": "shutdown.real/pool", "kind": "real"})
     out.append({"name": "shutdown.asyncio", "kind": "asyncio"})
     return out
@@ -127,11 +129,31 @@ class SW(object):
             instr.advance(0.05)
             return not all(f.done() for f in self.futs)
         if st == "blocked_submit":
-            # queue full (count=1: one in flight, one queued): a third submit parks
-            a = self.ctx.actor("B", self.submit, "blocked").go()
-            s = wait_done_or_blocked(a, grace=2.0)
-            self.parked = a
-            return s == "parked"
+            # queue full (count=1: one in flight, one queued): further submits park - the caller's thread
+            # when the blocking throttle is the outer layer, a library worker (e.g. the retry submit
+            # thread handing over to a blocking throttle below it) otherwise
+            def worker_in_blocking_submit():
+                # a library thread parked in the blocking throttle's wait (the submit thread's own fallback wait
+                # is 30 s too, so look at who is inside ThrottleExecutor.submit)
+                import sys as _sys
+                frames = _sys._current_frames()
+                for t in instr.TRACKED:
+                    f = frames.get(t.ident)
+                    while f is not None:
+                        if f.f_code.co_name == "_block_until_ready":
+                            return True
+                        f = f.f_back
+                return False
+            for k in range(3):
+                a = self.ctx.actor("B%d" % k, self.submit, "blocked%d" % k).go()
+                s = wait_done_or_blocked(a, grace=2.0)
+                if s in ("parked", "blocked"):
+                    self.parked = a
+                    return True
+                instr.settle()
+                if worker_in_blocking_submit():
+                    return True
+            return False
         return False
 
     def shutdown(self, wait, kw, who="S"):
@@ -193,6 +215,30 @@ class SW(object):
                 res.violation("racing-submit-wrong-error/%s" % type(e).__name__, "%s: submit() (%s) raised %r" % (where, who, e))
 
 
+def classify_wait(actor, w):
+    """What is the hanging shutdown() waiting for?  gate:<layer>/<own|above-blocking-throttle>,
+    future-lock, executor-lock:<layer>, join:<thread>, other."""
+    with instr.MU:
+        lk = instr.LM.waiting.get(actor.ident)
+        th = instr.LM.joining.get(actor.ident)
+    layers = w.layers
+    it = layers.index("throttle") if "throttle" in layers else -1
+    if th is not None:
+        return "join:%s" % th.name.split("-")[0]
+    if lk is None:
+        return "other"
+    for idx, ex in enumerate(w.b.executors[1:]):
+        helper = getattr(ex, "_shutdown", None)
+        if helper is not None and getattr(helper, "_lock", None) is lk:
+            return "gate:%s/%s" % (layers[idx], "own" if idx == it else ("above-blocking-throttle" if idx > it else "below"))
+        for attr in ("_lock", "_jobs_lock"):
+            if getattr(ex, attr, None) is lk:
+                return "executor-lock:%s" % layers[idx]
+    if "_Future" in lk.label:
+        return "future-lock"
+    return "lock:%s" % lk.label
+
+
 def run_state(case, res):
     layers = case["layers"]
     for state in STATES:
@@ -219,7 +265,7 @@ def run_state(case, res):
                         key = state
                         if state == "blocked_submit":
                             # is the blocking throttle the outermost layer, or do layers above it hold their own gate too?
-                            key += "/direct" if layers[-1] == "throttle" else "/outer-gate"
+                            key += "/" + classify_wait(a, w)
                         res.violation("shutdown-hang/%s" % key, "%s wait=%s: shutdown() did not return: %s" % (label, wait, instr.describe_threads()),
                                       stacks=hang_report(ctx.actors))
                         if state != "blocked_submit":
@@ -306,6 +352,77 @@ def run_race(case, res):
             Sweep(RScenario(case, wait, state), res, "vt", case["name"]).run(case["cap"], rng, per_site=1)
             if harness.need_recycle():
                 return
+
+
+def run_fromcb(case, res):
+    """Further shutdown() calls are harmless from any thread - including the executor's own worker
+    thread: a done-callback running there calls shutdown() after somebody else has shut the executor
+    down (real time; the callback is held until the first shutdown has returned)."""
+    t = case["layer"]
+    for rep in range(3):
+        begin("rt")
+        ctx = Ctx()
+        try:
+            L = {"t": t, "k": 0}
+            if t == "retry":
+                L.update(max_attempts=2, sleep=0)
+            if t == "poll":
+                L.update(interval=0.01)
+            if t == "throttle":
+                L.update(count=1)
+            if t == "timeout":
+                L.update(timeout=0.05)
+            base = "me" if t in ("poll", "timeout") else "me_inline"
+            b = stacks.build(ctx, {"base": base, "layers": [L]})
+            errors = []
+            ran = {"on": None}
+            registered, started, go = instr._RealEvent(), instr._RealEvent(), instr._RealEvent()
+
+            def cb(_f):
+                ran["on"] = instr.current_role()
+                started.set()
+                go.wait(10)
+                try:
+                    b.top.shutdown(True)
+                    b.top.shutdown(False)
+                except instr.DeadlockBroken:
+                    raise
+                except BaseException as e:
+                    errors.append(e)
+
+            def job():
+                registered.wait(5)
+                return 1
+
+            def client():
+                f = b.top.submit(job)
+                f.add_done_callback(cb)
+                registered.set()
+                return f
+            a = ctx.actor("C", client).go()
+            if t == "poll":
+                import time as _t
+                _t.sleep(0.05)
+                for k in b.base.pending():
+                    b.base.run(k)
+            ok = started.wait(5)
+            s = ctx.actor("S", b.top.shutdown, False).go()
+            drive([s], timeout=20)
+            go.set()
+            drive([a], timeout=20)
+            import time as _t
+            _t.sleep(0.05)
+            res.execs += 1
+            check_common(res)
+            label = "%s (callback ran on %s)" % (case["name"], ran["on"])
+            for e in errors:
+                res.violation("repeated-shutdown-raised/%s/from-worker-callback" % type(e).__name__,
+                              "%s: shutdown() inside a done-callback, after the executor had been shut down, raised %r" % (label, e))
+            if ok and ran["on"] and ran["on"].startswith("W:"):
+                res.key("fromcb", t, rep)
+                res.count("callbacks_on_worker_thread")
+        finally:
+            end(ctx)
 
 
 def run_real(case, res):
@@ -413,6 +530,8 @@ def run_case(case, res):
         run_state(case, res)
     elif k == "race":
         run_race(case, res)
+    elif k == "fromcb":
+        run_fromcb(case, res)
     elif k == "real":
         run_real(case, res)
     else:
